@@ -1,90 +1,218 @@
 """C13 - relabelling on import moves each mask to its node id pixel-exactly (mechanism).
 
-R13.1 fresh destination, source-only reads in relabel_segmentation (mappings cannot chain)
-R13.2 one time mask selects from both id arrays; the frame read and the frame written are
-      that time point
-R13.3 joint offset: graph relabel and id-array shift under the same condition, same offset
-R13.4 the 'no relabelling needed' shortcut compares seg ids and node ids element-wise, in order
+R13.1 fresh destination, source-only reads in relabel_segmentation (mappings cannot chain);
+      followed through helper functions the frames are handed to
+R13.2 the frame read and the frame written are the same time point
+R13.3 joint offset: graph relabel and id-array shift under the same condition, same amount
+R13.4 relabelling is skipped only when seg ids and node ids agree position by position
 """
 
 from __future__ import annotations
 
 import ast
 
-from ..model import AnalysisError, Program, call_name, norm
+from ..model import AnalysisError, FuncInfo, Program, call_name, norm
 from ..report import Report
-from .c19 import fresh_destination
+from ..resolve import Resolver
+from .util import guards_of
+
+
+def root_and_index(e: ast.expr):
+    """x[i][j] -> ('x', ['i','j']);  x -> ('x', [])"""
+    idx = []
+    while isinstance(e, ast.Subscript):
+        idx.insert(0, norm(e.slice))
+        e = e.value
+    return (e.id if isinstance(e, ast.Name) else None), idx
+
+
+class Frames:
+    """Which names denote (views of) the destination / the source array, in the relabel function
+    and in module-level helpers that receive such views."""
+
+    def __init__(self, P: Program, f: FuncInfo, dest: str, src: str):
+        self.P = P
+        self.roles: dict[tuple[str, str], tuple[str, list[str]]] = {}  # (func qname, name) -> (role, index path)
+        self.roles[(f.qname, dest)] = ("dest", [])
+        self.roles[(f.qname, src)] = ("src", [])
+        self.funcs = [f]
+        self._propagate(f)
+
+    def role(self, f: FuncInfo, e: ast.expr):
+        name, idx = root_and_index(e)
+        r = self.roles.get((f.qname, name)) if name else None
+        if r is None:
+            return None
+        return r[0], r[1] + idx
+
+    def _propagate(self, f: FuncInfo, depth: int = 0) -> None:
+        if depth > 3:
+            return
+        # local aliases:  frame = dest[t]
+        for _ in range(2):
+            for s in ast.walk(f.node):
+                if isinstance(s, ast.Assign) and len(s.targets) == 1 and isinstance(s.targets[0], ast.Name):
+                    r = self.role(f, s.value) if isinstance(s.value, (ast.Name, ast.Subscript)) else None
+                    if r is not None:
+                        self.roles.setdefault((f.qname, s.targets[0].id), r)
+        for c in ast.walk(f.node):
+            if not (isinstance(c, ast.Call) and isinstance(c.func, ast.Name)):
+                continue
+            q = self.P.resolve_name(f.module, c.func.id)
+            callee = self.P.functions.get(q) if q else None
+            if callee is None or callee is f or callee in self.funcs:
+                continue
+            bound = {}
+            for p, a in zip(callee.params, c.args, strict=False):
+                bound[p] = a
+            for k in c.keywords:
+                if k.arg:
+                    bound[k.arg] = k.value
+            hit = False
+            for p, a in bound.items():
+                r = self.role(f, a) if isinstance(a, (ast.Name, ast.Subscript)) else None
+                if r is not None:
+                    self.roles[(callee.qname, p)] = r
+                    hit = True
+            if hit:
+                self.funcs.append(callee)
+                self._propagate(callee, depth + 1)
 
 
 def run(P: Program, R: Report, tier: str) -> None:
     R.explanation = (
-        "Fresh-destination / source-only-read discipline of relabel_segmentation, agreement of the "
-        "time index used for reading and writing, pairing of the graph relabel with the id shift, "
-        "and the exact form of the shortcut that skips relabelling."
+        "Alias-aware fresh-destination / source-only-read analysis of relabel_segmentation and the "
+        "helpers it hands frames to, agreement of the time index read and written, pairing of the "
+        "graph relabel with the id shift, and the path condition under which relabelling is skipped."
     )
     R.decides += [
-        "masks are read from the original array and written into a fresh zero array, per time point, so label->id mappings cannot chain and unlisted labels vanish",
+        "masks are read from the original array and written into a fresh zero array at the same time point, so label->id mappings cannot chain and unlisted labels vanish",
         "when id 0 forces a shift, graph and id array shift together; relabelling is skipped only when seg ids equal node ids position by position",
     ]
     R.not_decided += ["pixel equality of the result (runtime values)"]
     f = P.func_named("relabel_segmentation")
-    dest, src_arg = fresh_destination(R, "R13.1", f)
-    if dest is None:
+    rets = [s for s in ast.walk(f.node) if isinstance(s, ast.Return) and isinstance(s.value, ast.Name)]
+    if not rets:
+        raise AnalysisError("relabel_segmentation: no named array is returned")
+    dest = rets[-1].value.id
+    zdef = [s for s in ast.walk(f.node) if isinstance(s, ast.Assign) and norm(s.targets[0]) == dest]
+    fresh = [z for z in zdef if "zeros_like(" in norm(z.value) or "np.zeros(" in norm(z.value)]
+    R.check(len(zdef) == 1 and len(fresh) == 1, "R13.1", f, zdef[0] if zdef else f.node, f"the returned array `{dest}` is created zero-filled (fresh destination)",
+            f"`{dest}` is defined by `{norm(zdef[0].value)[:80] if zdef else '?'}`: labels that are not rewritten survive and rewrites can chain", via="fresh-destination")
+    if not fresh:
         return
-    # the source: what zeros_like was given
-    src = src_arg
-    writes = [s for s in ast.walk(f.node) if isinstance(s, ast.Assign) and isinstance(s.targets[0], ast.Subscript) and norm(s.targets[0]).startswith(dest)]
-    R.floor("R13.1", "mask writes", len(writes), 1)
-    for w in writes:
-        t = w.targets[0]
-        ok = isinstance(t.value, ast.Subscript) and norm(t.value.value) == dest and isinstance(t.slice, ast.Compare)
-        if not ok:
-            R.fail("R13.1", f, w, "a mask write has the form dest[t][source[t] == label] = id", norm(w)[:100])
+    src = None
+    for c in ast.walk(fresh[0].value):
+        if isinstance(c, ast.Call) and call_name(c) == "zeros_like" and c.args and isinstance(c.args[0], ast.Name):
+            src = c.args[0].id
+    if src is None:
+        R.undecided("R13.1", f, fresh[0], "the source array is the argument of zeros_like", "shape not recognised")
+        return
+    fr = Frames(P, f, dest, src)
+    n_w = 0
+    for g in fr.funcs:
+        for s in ast.walk(g.node):
+            tgts = s.targets if isinstance(s, ast.Assign) else ([s.target] if isinstance(s, ast.AugAssign) else [])
+            for t in tgts:
+                if not isinstance(t, ast.Subscript):
+                    continue
+                base = fr.role(g, t.value)
+                if base is None or base[0] != "dest":
+                    if base is not None and base[0] == "src":
+                        R.fail("R13.1", g, s, "the source array is never written", f"`{norm(s)[:80]}` writes the source array")
+                    continue
+                n_w += 1
+                mask = t.slice
+                rs = Resolver(P, g)
+                mexp = rs.expand(mask)
+                reads = []
+                for tree in (mask, mexp):
+                    inner = {id(x.value) for x in ast.walk(tree) if isinstance(x, ast.Subscript)}
+                    reads += [fr.role(g, x) for x in ast.walk(tree) if isinstance(x, (ast.Subscript, ast.Name)) and id(x) not in inner]
+                reads = [r for r in reads if r is not None]
+                bad = [r for r in reads if r[0] == "dest"]
+                R.check(not bad and bool(reads), "R13.1", g, s, f"{g.short}: a mask written into the destination is computed from the source array only",
+                        f"`{norm(s)[:90]}`: the mask reads " + ("the destination (already rewritten labels can be rewritten again)" if bad else "neither array"),
+                        via="provenance")
+                for r in reads:
+                    if r[0] == "src":
+                        R.check(r[1][:1] == base[1][:1] and len(base[1]) >= 1, "R13.2", g, s, f"{g.short}: the frame read and the frame written are the same time point",
+                                f"reads frame {r[1][:1]} of the source, writes frame {base[1][:1]} of the destination", via="provenance")
+                if isinstance(s, ast.AugAssign):
+                    R.fail("R13.1", g, s, "the destination is only assigned, never updated in place from its own content", norm(s)[:80])
+        # reads of the destination other than as a store base / call argument / return value
+        for n in ast.walk(g.node):
+            if isinstance(n, ast.Name) and isinstance(n.ctx, ast.Load) and fr.roles.get((g.qname, n.id), ("", []))[0] == "dest":
+                ok = False
+                for s in ast.walk(g.node):
+                    if isinstance(s, ast.Return) and s.value is n:
+                        ok = True
+                    if isinstance(s, ast.Assign):
+                        for t in s.targets:
+                            x = t
+                            while isinstance(x, ast.Subscript):
+                                x = x.value
+                            if x is n and isinstance(t, ast.Subscript):
+                                ok = True
+                        if isinstance(s.targets[0], ast.Name) and (s.value is n or (isinstance(s.value, ast.Subscript) and root_and_index(s.value)[0] == n.id)) and fr.roles.get((g.qname, s.targets[0].id), ("", []))[0] == "dest":
+                            ok = True
+                    if isinstance(s, ast.Call) and any((a is n) or (isinstance(a, ast.Subscript) and any(y is n for y in ast.walk(a))) for a in list(s.args) + [k.value for k in s.keywords]):
+                        q = P.resolve_name(g.module, s.func.id) if isinstance(s.func, ast.Name) else None
+                        if q in P.functions and P.functions[q] in fr.funcs:
+                            ok = True
+                R.check(ok, "R13.1", g, n, f"{g.short}: the destination is only written, handed on or returned - never read",
+                        f"`{n.id}` is read at line {n.lineno}", via="fresh-destination")
+    R.floor("R13.1", "mask writes", n_w, 1)
+    # time points come from the nodes' time values, one boolean mask selects from both id arrays
+    loops = [lp for lp in ast.walk(f.node) if isinstance(lp, ast.For) and "time_values" in norm(lp.iter)]
+    R.check(len(loops) == 1, "R13.2", f, loops[0] if loops else f.node, "relabel_segmentation loops over the time points of the nodes", "", via="syntax")
+    for lp in loops:
+        tv = lp.target.id if isinstance(lp.target, ast.Name) else "?"
+        masks = [s for s in ast.walk(lp) if isinstance(s, ast.Assign) and norm(s.value) == f"time_values == {tv}"]
+        if len(masks) != 1:
+            R.undecided("R13.2", f, lp, "one boolean time mask selects the nodes of the time point", "shape not recognised")
             continue
-        tw = norm(t.value.slice)
-        cmp_ = t.slice
-        left = cmp_.left
-        reads_src = isinstance(left, ast.Subscript) and norm(left.value) == src
-        tr = norm(left.slice) if isinstance(left, ast.Subscript) else None
-        R.check(reads_src, "R13.1", f, w, f"the mask is computed from the source array `{src}` only",
-                f"mask reads `{norm(left)}`: reading anything but the untouched source lets 1->2, 2->3 collapse into 3", via="provenance")
-        R.check(tr == tw, "R13.2", f, w, "the frame read and the frame written are the same time point", f"reads frame {tr}, writes frame {tw}", via="provenance")
-        # the loop over time points
-        tl = [lp for lp in ast.walk(f.node) if isinstance(lp, ast.For) and w in list(ast.walk(lp)) and isinstance(lp.target, ast.Name) and lp.target.id == tw]
-        R.check(bool(tl) and "time_values" in norm(tl[0].iter), "R13.2", f, w, "time points come from the nodes' time values", norm(tl[0].iter) if tl else "", via="provenance")
-        if tl:
-            masks = [s for s in tl[0].body if isinstance(s, ast.Assign) and norm(s.value) == f"time_values == {tw}"]
-            sel = [s for s in tl[0].body if isinstance(s, ast.Assign) and masks and isinstance(s.value, ast.Subscript) and norm(s.value.slice) == norm(masks[0].targets[0])]
-            both = {norm(s.value.value) for s in sel}
-            R.check(len(masks) == 1 and {"seg_ids", "node_ids"} <= both, "R13.2", f, tl[0],
-                    "one boolean time mask selects from both the seg-id and the node-id array", f"selected arrays: {sorted(both)}", via="provenance")
+        m = norm(masks[0].targets[0])
+        used = {norm(x.value) for x in ast.walk(lp) if isinstance(x, ast.Subscript) and norm(x.slice) == m}
+        R.check({"seg_ids", "node_ids"} <= used, "R13.2", f, lp, "one boolean time mask selects from both the seg-id and the node-id array",
+                f"arrays selected with `{m}`: {sorted(used)}", via="provenance")
     # ---- R13.3 joint offset
-    offs = [s for s in ast.walk(f.node) if isinstance(s, ast.Assign) and isinstance(s.targets[0], ast.Name) and "0 in node_ids" in norm(s.value)]
-    if not offs:
-        R.fail("R13.3", f, f.node, "the offset is derived from the presence of node id 0", "no such assignment")
-    else:
-        off = offs[0].targets[0].id
-        ifs = [i for i in ast.walk(f.node) if isinstance(i, ast.If) and norm(i.test) == off]
-        ok = False
-        for i in ifs:
-            body = norm(ast.Module(i.body, []))
-            ok = "relabel_nodes(" in body and f"node_ids = node_ids + {off}" in body and f"old_id + {off}" in body
-        R.check(ok, "R13.3", f, ifs[0] if ifs else f.node, "graph relabel and id-array shift happen under the same condition with the same offset",
-                "the graph and the id array are not shifted together", via="pairing")
+    rs = Resolver(P, f)
+    ifs = [i for i in ast.walk(f.node) if isinstance(i, ast.If) and "0 in node_ids" in rs.text(i.test)]
+    if not ifs:
+        R.fail("R13.3", f, f.node, "the shift is made when node id 0 is present", "no branch on `0 in node_ids`")
+    for i in ifs:
+        body = ast.Module(i.body, [])
+        rel = [c for c in ast.walk(body) if isinstance(c, ast.Call) and call_name(c) == "relabel_nodes"]
+        shift = [s for s in ast.walk(body) if isinstance(s, ast.Assign) and norm(s.targets[0]) == "node_ids" and isinstance(s.value, ast.BinOp) and isinstance(s.value.op, ast.Add) and norm(s.value.left) == "node_ids"]
+        R.check(bool(rel) and bool(shift), "R13.3", f, i, "graph relabel and id-array shift happen under the same condition",
+                f"relabel_nodes present: {bool(rel)}, node_ids shifted: {bool(shift)}: graph and segmentation would disagree about the ids", via="pairing")
+        if rel and shift:
+            k_arr = rs.text(shift[0].value.right)
+            # the amount added to the graph names: `<name> + K` inside the mapping construction
+            adds = {rs.text(b.right) for b in ast.walk(body) if isinstance(b, ast.BinOp) and isinstance(b.op, ast.Add) and b is not shift[0].value}
+            if not adds:
+                R.undecided("R13.3", f, i, "the amount added to the graph node names", "shape not recognised")
+            else:
+                R.check(adds == {k_arr}, "R13.3", f, i, f"graph names and id array are shifted by the same amount ({k_arr})",
+                        f"graph names shifted by {sorted(adds)}, id array by {k_arr}", via="pairing")
+            inplace = all(any(k.arg == "copy" and norm(k.value) == "False" for k in c.keywords) for c in rel)
+            R.check(inplace, "R13.3", f, rel[0], "the caller's graph is relabelled in place", "", via="syntax")
     # ---- R13.4 shortcut
     h = P.func_named("handle_segmentation", "TracksBuilder")
-    cuts = [i for i in ast.walk(h.node) if isinstance(i, ast.If) and "array_equal" in norm(i.test)]
-    R.check(len(cuts) == 1, "R13.4", h, h.node, "handle_segmentation has one shortcut that skips relabelling", f"{len(cuts)} found", via="syntax")
-    for i in cuts:
-        c = next(x for x in ast.walk(i.test) if isinstance(x, ast.Call) and call_name(x) == "array_equal")
-        args = sorted(norm(a) for a in c.args)
-        R.check(args == ["node_ids", "seg_ids"] and norm(i.test) == norm(c), "R13.4", h, i,
-                "relabelling is skipped only when seg ids and node ids agree position by position",
-                f"shortcut test is `{norm(i.test)[:100]}`: a permuted assignment over the same values would skip relabelling", via="guard-shape")
-        # both arrays come straight from the loaded data
-        defs = {n.targets[0].id: norm(n.value) for n in ast.walk(h.node) if isinstance(n, ast.Assign) and isinstance(n.targets[0], ast.Name) and n.targets[0].id in ("node_ids", "seg_ids")}
-        R.check("node_ids" in defs.get("node_ids", "") and "seg_id" in defs.get("seg_ids", ""), "R13.4", h, i,
-                "the compared arrays are the loaded node ids and seg ids", str(defs), via="provenance")
-    call = [c for c in ast.walk(h.node) if isinstance(c, ast.Call) and call_name(c) == "relabel_segmentation"]
-    R.check(len(call) == 1 and [norm(a) for a in call[0].args][2:] == ["node_ids", "seg_ids", "time_values"], "R13.4", h, call[0] if call else h.node,
-            "relabel_segmentation receives node ids, seg ids and times in its parameter order", norm(call[0])[:100] if call else "", via="dataflow")
+    hr = Resolver(P, h)
+    calls = [s for s in ast.walk(h.node) if isinstance(s, ast.Assign) and isinstance(s.value, ast.Call) and call_name(s.value) == "relabel_segmentation"] + [
+        s for s in ast.walk(h.node) if isinstance(s, ast.Return) and s.value is not None and any(isinstance(c, ast.Call) and call_name(c) == "relabel_segmentation" for c in ast.walk(s.value))]
+    R.check(len(calls) == 1, "R13.4", h, h.node, "handle_segmentation relabels at one place", f"{len(calls)} call sites", via="syntax")
+    for s in calls:
+        g = [x.replace(" ", "") for x in guards_of(h, s)]
+        eq = [x for x in g if "array_equal(" in x]
+        ok = any(x in ("not(np.array_equal(seg_ids,node_ids))", "not(np.array_equal(node_ids,seg_ids))", "notnp.array_equal(seg_ids,node_ids)", "notnp.array_equal(node_ids,seg_ids)") for x in eq)
+        R.check(ok and len(eq) == 1, "R13.4", h, s, "relabelling is skipped only when seg ids and node ids agree position by position",
+                f"path condition of the relabel call involves {eq or 'no array_equal test'}: a permuted assignment over the same values could skip relabelling", via="guard-shape")
+        c = next(c for c in ast.walk(s) if isinstance(c, ast.Call) and call_name(c) == "relabel_segmentation")
+        R.check([norm(a) for a in c.args][2:] == ["node_ids", "seg_ids", "time_values"], "R13.4", h, c,
+                "relabel_segmentation receives node ids, seg ids and times in its parameter order", norm(c)[:100], via="dataflow")
+    defs = {n: hr.text(ast.Name(n, ast.Load())) for n in ("node_ids", "seg_ids")}
+    R.check("node_ids" in defs["node_ids"] and ("seg_id" in defs["seg_ids"] or "SEG_KEY" in defs["seg_ids"]), "R13.4", h, h.node,
+            "the compared arrays are the loaded node ids and seg ids", str(defs), via="provenance")
